@@ -7,6 +7,8 @@ def _c20_case(c):
         return {"op": "P", "input": unhex(p[1])}
     if p[0] == "R":
         return {"op": "R", "registry": unhex(p[1]), "repository": unhex(p[2]), "input": unhex(p[3])}
+    if p[0] == "G":
+        return {"op": "G", "input": unhex(p[1])}
     if p[0] == "V":
         return {"op": "V", "kind": p[1], "input": unhex(p[2])}
     if p[0] == "U":
@@ -22,7 +24,7 @@ def _c20_case(c):
 LINK = {
     "name": "C20link",
     "proof_files": [],
-    "model_files": ["Generated/GC20.v", "Model/Reference.v", "Model/RefOps.v"],
+    "model_files": ["Generated/GC20.v", "Model/NetURL.v", "Model/Reference.v", "Model/RefOps.v"],
     "extract": "XC20.v",
     "ml_main": "c20_main.ml",
     "harness": "c20link",
@@ -32,7 +34,7 @@ LINK = {
 CONFIG = {
     "properties_file": "Properties/C20.v",
     "proof_files": ["Base/Prelude.v", "Base/Regex.v", "Proofs/Reference.v", "Proofs/RefOps.v", "Proofs/RefURL.v", "Proofs/RefGrammar.v"],
-    "model_files": ["Generated/GC20.v", "Model/Reference.v", "Model/RefOps.v"],
+    "model_files": ["Generated/GC20.v", "Model/NetURL.v", "Model/Reference.v", "Model/RefOps.v"],
     "extract": "XC20.v",
     "ml_main": "c20_main.ml",
     "harness": "c20",
